@@ -67,8 +67,11 @@ type hctx struct {
 	contBudget   map[string]int // variant class -> images that may still be continued
 	failSnapOnce bool           // inject one snapshot failure at snap.written
 	midSnap      func()         // activity inside the failing snapshot: an acknowledged write and a colliding snapshot request
+	tornSnapOnce bool           // instead of an error: the freshly written snapshot file is cut in half before it is installed
 	recovering   bool           // root is being opened (hooks = crash during recovery)
 	failed       bool
+	tornMode     bool // this history's snapshot fault is a torn output file
+	tornActive   bool
 	tornAll      bool
 	noContinue   bool
 
@@ -229,6 +232,7 @@ func runCase(caseID string, seed int64, idx int, base string) {
 			}
 		}
 	}
+	c.tornMode = idx%4 == 3
 	c.runOps(ops, failSnapAt)
 	if !c.failed {
 		r.Count("histories_completed", 1)
@@ -257,7 +261,11 @@ func (c *hctx) runOps(ops []sm.Op, failSnapAt int) {
 		c.ops = append(c.ops, op.String())
 		c.pendW, c.pendD, c.pendKind = nil, nil, op.Kind
 		if failSnapAt >= 0 && i >= failSnapAt && op.Kind == "snapshot" {
-			c.failSnapOnce = true
+			if c.tornMode {
+				c.tornSnapOnce = true
+			} else {
+				c.failSnapOnce = true
+			}
 			failSnapAt = -1
 		}
 		var opErr error
@@ -288,10 +296,18 @@ func (c *hctx) exec(op sm.Op) error {
 		c.tr.ApplyWrite(op.Batch)
 		r.Count("acknowledged_writes", 1)
 	case "snapshot":
-		injected := c.failSnapOnce
+		injected, torn := c.failSnapOnce, c.tornSnapOnce
 		err := c.env.Snapshot()
-		if err != nil && !(injected && strings.Contains(err.Error(), "injected")) {
+		c.tornActive = false
+		if err != nil && !(injected && strings.Contains(err.Error(), "injected")) && !(torn && !c.tornSnapOnce) {
 			return fmt.Errorf("snapshot: %w", err)
+		}
+		if torn && !c.tornSnapOnce {
+			if err != nil {
+				r.Count("snapshot_outputs_torn_before_install_refused", 1)
+			} else {
+				r.Count("snapshot_outputs_torn_before_install_reported_success", 1)
+			}
 		}
 		if err != nil {
 			c.ops[len(c.ops)-1] += " (injected failure)"
@@ -410,6 +426,21 @@ func onHook(name string, args ...interface{}) error {
 			}
 			return fmt.Errorf("injected snapshot failure")
 		}
+		if c.tornSnapOnce && len(args) > 1 {
+			if files, ok := args[1].([]string); ok && len(files) > 0 {
+				if st, err := os.Stat(files[0]); err == nil && st.Size() > 8 {
+					if os.Truncate(files[0], st.Size()/2) == nil {
+						c.tornSnapOnce = false
+						// until the snapshot attempt is over the directory holds a
+						// file no crash could have produced: no images meanwhile
+						c.tornActive = true
+					}
+				}
+			}
+		}
+		return nil
+	}
+	if c.tornActive {
 		return nil
 	}
 	c.image(name, path)
